@@ -63,7 +63,10 @@ def gen_cases(rng, tier):
     for i in range({'quick': 14, 'thorough': 120, 'search': 50}[tier]):
         h = [rng.pick(['run', 'run', 'delete']) for _ in range(rng.randint(2, 6))]
         h[0] = 'run'
-        cases.append({'kind': 'history', 'history': h, 'reuse': rng.chance(0.5), 'two': rng.chance(0.4),
+        # built-in steps placed before the checkpoint: on a recomputation (first run, or after the directory was removed)
+        # they run again, with the same Flow object when it is re-used
+        ups = rng.sample(['validate', 'computed', 'join_self', 'set_type', 'sort', 'add_field'], rng.randint(0, 3))
+        cases.append({'kind': 'history', 'history': h, 'reuse': rng.chance(0.5), 'two': rng.chance(0.4), 'ups': ups,
                       'loader': rng.chance(0.3),
                       'names': rng.pick([['one', 'two'], ['one', 'one.active'], ['x.active.y', 'two'], ['one.active', 'one']]),
                       'rows': [{'a': j, 'v': enc(gen_value(rng, 2))} for j in range(rng.randint(0, 4))]})
@@ -121,7 +124,13 @@ def mk_flow(case, d, log):
     else:
         src = Src([{'name': 'r', 'fields': [{'name': 'a', 'type': 'integer'}, {'name': 'v', 'type': 'any'}], 'rows': rows}])
     n1, n2 = case.get('names', ['one', 'two'])
-    steps = [src, up, DF.checkpoint(n1, checkpoint_path=d)]
+    builtins_ = {'validate': lambda: DF.validate(),
+                 'computed': lambda: DF.add_computed_field([dict(target='c', operation='sum', source=['a'])]),
+                 'join_self': lambda: DF.join_with_self('r', ['a'], {'a': None, 'n': {'aggregate': 'count'}}),
+                 'set_type': lambda: DF.set_type('a', type='number'),
+                 'sort': lambda: DF.sort_rows('{a}', reverse=True),
+                 'add_field': lambda: DF.add_field('z', 'integer', 7)}
+    steps = [src, up] + [builtins_[u]() for u in case.get('ups', [])] + [DF.checkpoint(n1, checkpoint_path=d)]
     if case['two']:
         steps += [mid, DF.checkpoint(n2, checkpoint_path=d)]
     return Flow(*steps)
